@@ -78,6 +78,8 @@ def step (s : S) (t : List String) : S × String :=
   | "raw" :: _ => (s, "allowed")
   | "kf" :: "fallthrough-block-shrink" :: _ =>
     (s, if fallShrinkObserved.allowed then "allowed" else "crash:vm-panic")
+  | "kf" :: "defer-panic-recursion-memory" :: _ =>
+    (s, if deferPanicRecursionObserved.allowed then "allowed" else "crash:mem-growth")
   | "kf" :: _ => (s, "allowed")
   | _ => (s, "err:badop")
 
